@@ -138,6 +138,19 @@ CLAIMED = {
         note=TRUST + " Assumed: gRPC stream Recv/SendAndClose and gdbi.GraphDB.Graph contracts (server/zz_contracts_verif.go), kvi interface "
              "contract; goroutines spawned by the handler are not executed by the model (they only read the stream).",
         technique="contract-based deductive verification: WP/VC generation over go/ssa + SMT (z3/cvc5)"),
+    "C19": dict(
+        level="other",
+        text="Partial: the aggregation arms are verified as sequential processes over the channel the dispatcher feeds them. Proved "
+             "for every input history: count emits exactly one row whose value is the number of rows received; histogram never "
+             "panics (also with no numeric value or interval 0), collects exactly the values that convert to numbers, and the tally "
+             "sent for a bucket [b, b+i) is 1.0 added once per collected value v with b <= v < b+i; term consumes its whole input and "
+             "emits at most `size` buckets when a size is given; the compiler rejects an aggregate step with two equal names (so the "
+             "arms never share a channel). Not decided: percentile (t-digest library), field and type arms, ordering by frequency "
+             "(library sort), bucket alignment in floating point, and independence under real concurrency.",
+        ref="§5 C19",
+        note=TRUST + " Assumed: cast.ToFloat64E and jsonpath.TravelerPathLookup contracts, sort.* not modelled, each arm's sends on the shared "
+             "output are counted in isolation (sequential process model).",
+        technique="contract-based deductive verification: process contracts over channel histories, WP/VC generation over go/ssa + SMT"),
 }
 
 NOT_APPLICABLE = {
